@@ -20,13 +20,13 @@ class Formatter(EntitySubstitution):
     rather than making a new Formatter object:
 
     For HTML documents:
-     * 'html' - HTML entity substitution for generic HTML documents. (default)
+     * 'html' - HTML entity substitution for generic HTML documents.
      * 'html5' - HTML entity substitution for HTML5 documents, as
                  well as some optimizations in the way tags are rendered.
-     * 'html5-4.12.0' - The version of the 'html5' formatter used prior to
+     * 'html5-4.12' - The version of the 'html5' formatter used prior to
                         Beautiful Soup 4.13.0.
      * 'minimal' - Only make the substitutions necessary to guarantee
-                   valid HTML.
+                   valid HTML. (default)
      * None - Do not perform any substitution. This will be faster
               but may result in invalid markup.
 
